@@ -71,3 +71,13 @@ Proof. exact gen_isCollinear_eq. Qed.
 Theorem C15_triSign_from_source : forall x, gen_triSign x = (if x =? 1 then 0 else Z.sgn x)%Z.
 Proof. intros x. rewrite gen_triSign_eq. apply triSign_spec. Qed.
 Print Assumptions C15_collinear_from_source.
+
+(* K3 tripwire for the hand-written models this file's theorems are about: the source text of the modelled functions is
+   the text the models were last reconciled with (Model/Fingerprints.v, written by tools/update_fingerprints.sh after clean
+   correspondence runs; Gen/Fingerprints_gen.v is regenerated from /repo on every run).  When this breaks, the functions
+   were edited: the check widens its search for a failing input and reports the broken obligation either way. *)
+From Coq Require Import String.
+From Clip Require Import Gen.Fingerprints_gen Model.Fingerprints.
+Theorem C15_modelled_source_unchanged :
+  fps_agree gen_fingerprints ["TrimCollinear64"]%string = true.
+Proof. vm_compute. reflexivity. Qed.
